@@ -18,7 +18,8 @@ META = {
             "tree (so listed method ids = served ids), the signature an ABI consumer rebuilds from the JSON type/components "
             "is the name of the ABI type the code generators use, k defaults give k+1 entries whose inputs are the prefixes "
             "and whose signatures are the served ones, and the synthesised getter of any HashMap/array/struct nesting has "
-            "the key path as inputs. The model is tied to /repo on every run by an exact differential against the real type "
+            "the key path as inputs; the event / error part of the ABI lists every locally declared or reachably emitted declaration "
+            "as its own entry (identity of the declaration, not its topic0 / selector), nothing else, each once (EventSet.v). The model is tied to /repo on every run by an exact differential against the real type "
             "and function objects; the property itself is observed by driving deployed generated contracts purely from the "
             "emitted ABI JSON and by recompiling the emitted interface outputs with a caller.",
     "level_note": "Trusted: Coq kernel + vm_compute; hand model AbiOut.v (H-tie: exact string equality with the real objects on "
@@ -31,6 +32,11 @@ KEY_INDEXED = "C19:interface-output-drops-indexed"
 KEY_IFACE_TYPES = "C19:interface-output-omits-interface-types"
 KEY_MI_ZEROS = "C19:method-identifiers-drop-leading-zeros"
 ZERO_ID_SRC = "@external\ndef evi(a: uint8) -> uint8:\n    return a\n"   # selector 0x08c6be77
+KEY_DUP_NAMES = "C19:interface-output-duplicate-event-error-names"
+DUP_LIBS = {"lib1.vy": "event Moved:\n    who: indexed(address)\n\n@internal\ndef note(w: address):\n    log Moved(who=w)\n",
+            "lib2.vy": "event Moved:\n    who: address\n\n@internal\ndef note(w: address):\n    log Moved(who=w)\n"}
+DUP_MAIN = ("import lib1\nimport lib2\n\n@external\ndef a():\n    lib1.note(msg.sender)\n\n"
+            "@external\ndef b():\n    lib2.note(msg.sender)\n")
 I0_DEF = "interface I0:\n    def foo() -> uint256: view\n"
 
 
@@ -654,23 +660,48 @@ def drive_modules(ctx, M, cfg, rnd, stats):
     from eth_abi import encode
     with warnings.catch_warnings():
         warnings.simplefilter("ignore")
-        out = compile_src(M["src"], cfg, formats=("abi", "method_identifiers", "bytecode"), contract_path="gen.vy",
+        out = compile_src(M["src"], cfg, formats=("abi", "method_identifiers", "bytecode", "interface"), contract_path="gen.vy",
                           input_bundle=bundle_for({}, extra=M["files"]))
     abi = out["abi"]
+    if "model" in M and "real_part" not in M:      # for the tie of coq/C19/EventSet.v (the ABI does not depend on the config)
+        from vlib import c19_evvar as EV0
+        M["real_part"] = EV0.show_real_part(abi, jsig)
     info = {"config": cfg.name, "src": M["src"], "modules": M["files"]}
 
     def fail(name, **d):
         raise Fail(name, dict(info, **d))
 
+    # several entries may share a topic0 / selector (same name and argument types declared in two modules, with another
+    # `indexed` layout or other field names): a log / error must be described by SOME entry with its id
     by_topic, by_sel = {}, {}
     listed = {"event": set(), "error": set()}
+    entry_key = lambda e: (fsig(e), tuple(i["name"] for i in e["inputs"]),  # noqa
+                           tuple(bool(i["indexed"]) for i in e["inputs"]) if e["type"] == "event" else ())
+    described = {"event": set(), "error": set()}     # entries which described at least one emitted log / raised error
     for e in abi:
         if e["type"] == "event":
-            by_topic[keccak(fsig(e).encode())] = e
-            listed["event"].add((fsig(e), tuple(i["name"] for i in e["inputs"]), tuple(bool(i["indexed"]) for i in e["inputs"])))
+            by_topic.setdefault(keccak(fsig(e).encode()), []).append(e)
+            listed["event"].add(entry_key(e))
         elif e["type"] == "error":
-            by_sel[keccak(fsig(e).encode())[:4]] = e
-            listed["error"].add((fsig(e), tuple(i["name"] for i in e["inputs"]), ()))
+            by_sel.setdefault(keccak(fsig(e).encode())[:4], []).append(e)
+            listed["error"].add(entry_key(e))
+
+    def log_mismatch(ev, topics, ldata, vals):
+        """None if the entry describes the log (topic count, indexed topics, data decode to the source-level values)"""
+        idx = [(i, v) for i, v in zip(ev["inputs"], vals) if i["indexed"]]
+        nidx = [i for i in ev["inputs"] if not i["indexed"]]
+        if len(topics) != 1 + len(idx):
+            return "log topic count does not match the event ABI entry"
+        for tp, (i, v) in zip(topics[1:], idx):
+            if tp != encode_args([i], [v]):
+                return "indexed topic differs from the ABI encoding of the argument"
+        try:
+            lv = decode_strict(nidx, ldata)
+        except Exception as ex:
+            return f"log data not decodable per the event ABI entry ({str(ex)[:80]})"
+        if lv != tuple(norm(v) for i, v in zip(ev["inputs"], vals) if not i["indexed"]):
+            return "log data decodes to the wrong values"
+        return None
     ch = Chain(cfg.evm)
     addr = ch.deploy(bytes.fromhex(out["bytecode"][2:]))
     if addr is None:
@@ -681,6 +712,7 @@ def drive_modules(ctx, M, cfg, rnd, stats):
         types = [G.abi_canon(t) for _, t, _ in d["fields"]]
         vals = [G.value(t, rnd, min_len=1) for _, t, _ in d["fields"]]
         data = keccak(c["fsig"].encode())[:4] + encode(types, vals)
+        info["calldata"] = data.hex()      # replay: compile src + modules, deploy, send this, read the log / revert data
         r = ch.call(addr, data)
         stats["calls"] += 1
         if d["kind"] == "event":
@@ -688,43 +720,115 @@ def drive_modules(ctx, M, cfg, rnd, stats):
             if len(logs) != 1:
                 fail("call which emits one event did not produce exactly one log", call=c["fsig"], ok=r.ok, nlogs=len(logs))
             _, topics, ldata = logs[0]
-            ev = by_topic.get(topics[0])
-            if ev is None:
+            cands = by_topic.get(topics[0], [])
+            if not cands:
                 fail("emitted log has no ABI event entry (matched by topic0)", call=c["fsig"], emitted=c["sig"], topic0=topics[0].hex(),
                      abi_events=sorted(x[0] for x in listed["event"]))
-            idx = [(i, v) for i, v in zip(ev["inputs"], vals) if i["indexed"]]
-            nidx = [i for i in ev["inputs"] if not i["indexed"]]
-            if len(topics) != 1 + len(idx):
-                fail("log topic count does not match the event ABI entry", event=fsig(ev), topics=[t.hex() for t in topics])
-            for tp, (i, v) in zip(topics[1:], idx):
-                if tp != encode_args([i], [v]):
-                    fail("indexed topic differs from the ABI encoding of the argument", event=fsig(ev), arg=i["name"])
-            try:
-                lv = decode_strict(nidx, ldata)
-            except Exception as ex:
-                fail("log data not decodable per the event ABI entry", event=fsig(ev), data=ldata.hex(), error=str(ex))
-            if lv != tuple(norm(v) for i, v in zip(ev["inputs"], vals) if not i["indexed"]):
-                fail("log data decodes to the wrong values", event=fsig(ev), got=str(lv))
+            why = [log_mismatch(ev, topics, ldata, vals) for ev in cands]
+            if len(cands) == 1 and why[0] is not None:
+                fail(why[0].split(" (")[0], event=fsig(cands[0]), entry=cands[0], call=c["fsig"], topics=[t.hex() for t in topics],
+                     data=ldata.hex(), values=str(vals), declaration=str(d["fields"]), reason=why[0])
+            if all(w is not None for w in why):
+                fail("emitted log is described by none of the ABI event entries with its topic0", call=c["fsig"], emitted=c["sig"],
+                     declaration=str(d["fields"]), topics=[t.hex() for t in topics], data=ldata.hex(), values=str(vals),
+                     candidates=[{"entry": e, "mismatch": w} for e, w in zip(cands, why)])
+            for ev, w in zip(cands, why):
+                if w is None:
+                    described["event"].add(entry_key(ev))
             stats["module_logs_decoded"] += 1
         else:
             if r.ok or len(r.out) < 4:
                 fail("call which raises a custom error did not revert with data", call=c["fsig"], ok=r.ok, out=r.out.hex())
-            er = by_sel.get(r.out[:4])
-            if er is None:
+            cands = by_sel.get(r.out[:4], [])
+            if not cands:
                 fail("raised custom error has no ABI error entry (matched by selector)", call=c["fsig"], raised=c["sig"],
                      selector=r.out[:4].hex(), abi_errors=sorted(x[0] for x in listed["error"]))
-            try:
-                dv = decode_strict(er["inputs"], r.out[4:])
-            except Exception as ex:
-                fail("custom error data not decodable per its ABI entry", error_entry=fsig(er), data=r.out.hex(), error=str(ex))
-            if dv != tuple(norm(v) for v in vals):
-                fail("custom error data decodes to the wrong values", error_entry=fsig(er), got=str(dv))
+            why = []
+            for er in cands:
+                try:
+                    dv = decode_strict(er["inputs"], r.out[4:])
+                    why.append(None if dv == tuple(norm(v) for v in vals) else "custom error data decodes to the wrong values")
+                except Exception as ex:
+                    why.append(f"custom error data not decodable per its ABI entry ({str(ex)[:80]})")
+            if all(w is not None for w in why):
+                fail(why[0].split(" (")[0], error_entry=fsig(cands[0]), data=r.out.hex(), values=str(vals), reasons=why)
+            for er, w in zip(cands, why):
+                if w is None:
+                    described["error"].add(entry_key(er))
             stats["module_errors_decoded"] += 1
     for kind in ("event", "error"):
         if listed[kind] != M["expected"][kind]:
             fail(f"ABI {kind} entries differ from the declared + reachable {kind}s",
                  missing=sorted(map(str, M["expected"][kind] - listed[kind])), unexpected=sorted(map(str, listed[kind] - M["expected"][kind])))
+    # every listed entry must be emittable: each reachable declaration is emitted / raised once above, so an entry which
+    # described nothing (and is not one of the called declarations, e.g. declared-but-unused) is a phantom
+    called = {"event": set(), "error": set()}
+    for c in M["calls"]:
+        d = c["decl"]
+        called[d["kind"]].add((c["sig"], tuple(n for n, _, _ in d["fields"]),
+                               tuple(bool(ix) for _, _, ix in d["fields"]) if d["kind"] == "event" else ()))
+    for kind in ("event", "error"):
+        ghosts = (listed[kind] & called[kind]) - described[kind]
+        if ghosts:
+            fail(f"an ABI {kind} entry of an emitted declaration describes no emitted {kind}", entries=sorted(map(str, ghosts)))
+        stats[f"module_{kind}_entries_emitted"] += len(described[kind])
+    # the `# Events` / `# Errors` sections of the `interface` output: exactly the same declarations (name, fields, indexed)
+    if "blocks" in M:
+        from vlib import c19_evvar as EV
+        got = EV.parse_decl_blocks(out["interface"])
+        for kind in ("event", "error"):
+            if got[kind] != M["blocks"][kind]:
+                fail(f"`interface` output: the {kind} declarations differ from the declared + reachable {kind}s",
+                     missing=sorted(map(str, M["blocks"][kind] - got[kind])), unexpected=sorted(map(str, got[kind] - M["blocks"][kind])),
+                     interface=out["interface"])
+        stats["module_interface_sections_compared"] += 1
+        # ... and the text must be valid compiler input giving the same event / error entries.  Two same-named declarations
+        # of different modules (legal in the contract) are printed as two blocks of one name, which the compiler rejects as
+        # a NamespaceCollision: counted (see notes/C19.md, Findings), anything else is reported
+        from vyper.exceptions import VyperException
+        dup = any(len({b for b in M["blocks"][k] if b[0] == nm}) > 1 for k in ("event", "error") for nm in {b[0] for b in M["blocks"][k]})
+        try:
+            with warnings.catch_warnings():
+                warnings.simplefilter("ignore")
+                iabi = compile_src(out["interface"], cfg, formats=("abi",), contract_path="gen_iface.vyi")["abi"]
+        except VyperException as ex:
+            if not (dup and "NamespaceCollision" in str(ex) and "has already been declared" in str(ex)):
+                fail("the emitted `interface` output is rejected by the compiler", interface=out["interface"], error=str(ex)[:600])
+            stats["interface_dup_names_rejected"] += 1
+            if stats["interface_dup_names_rejected"] == 1:       # one report per run; any other rejection fails above (other key)
+                ctx.violation("failing-input", "`interface` output repeats the name of two same-named events / errors of different "
+                              "modules: rejected by the compiler (NamespaceCollision)",
+                              {"src": DUP_MAIN, "modules": DUP_LIBS, "config": cfg.name, "error": str(ex)[:400],
+                               "replay": "write modules + src (main.vy); vyper -f interface main.vy > m.vyi; vyper m.vyi",
+                               "minimal": dup_names_minimal(cfg), "seen_on": {"src": M["src"], "modules": M["files"]}},
+                              key=KEY_DUP_NAMES)
+        else:
+            for kind in ("event", "error"):
+                a = {entry_key(e) for e in abi if e["type"] == kind}
+                b2 = {entry_key(e) for e in iabi if e["type"] == kind}
+                if a != b2:
+                    fail(f"{kind} entries of the compiled `interface` output differ from the contract ABI",
+                         contract=sorted(map(str, a)), iface=sorted(map(str, b2)), interface=out["interface"])
+            stats["module_interfaces_compiled"] += 1
+        stats["same_id_variant_programs"] += 1
     stats["module_programs"] += 1
+
+
+def dup_names_minimal(cfg):
+    """the two-module minimal program of KEY_DUP_NAMES: its `interface` output and what the compiler says about it"""
+    from vyper.exceptions import VyperException
+    with warnings.catch_warnings():
+        warnings.simplefilter("ignore")
+        try:
+            itext = compile_src(DUP_MAIN, cfg, formats=("interface",), contract_path="main.vy",
+                                input_bundle=bundle_for({}, extra=DUP_LIBS))["interface"]
+        except VyperException as ex:
+            return {"main_rejected": str(ex)[:300]}
+        try:
+            compile_src(itext, cfg, formats=("abi",), contract_path="m.vyi")
+            return {"interface": itext, "compiler": "accepted"}
+        except VyperException as ex:
+            return {"interface": itext, "compiler": str(ex)[:400]}
 
 
 def parse_type_blocks(text):
@@ -836,7 +940,8 @@ def split_top(s):
 
 def run(ctx):
     import collections
-    b = ctx.coq_build(["C19/AbiOut.v", "C19/AbiOutProofs.v", "C19/Mutability.v", "C19/SelectorInj.v", "C19/PropsAbiOut.v"])
+    b = ctx.coq_build(["C19/AbiOut.v", "C19/AbiOutProofs.v", "C19/Mutability.v", "C19/SelectorInj.v", "C19/PropsAbiOut.v",
+                       "C19/EventSet.v", "C19/EventSetProofs.v", "C19/PropsEventSet.v"])
     rnd = ctx.rng("contracts")
     ncontracts = 16 if ctx.tier == "quick" else 60
     contracts = [G.gen_contract(rnd) for _ in range(ncontracts)]
@@ -901,6 +1006,54 @@ def run(ctx):
                 break
         if len(reported) >= 3:
             break
+    # same NAME declared in several modules as variants of one declaration (identical / re-indexed / renamed fields: same
+    # topic0 / selector) -- tools/vlib/c19_evvar.py
+    from vlib import c19_evvar as EV
+    vrnd = ctx.rng("event-variants")
+    seen_variants = collections.Counter()
+    tied = []
+    for i in range(10 if ctx.tier == "quick" else 60):
+        if len(reported) >= 3:
+            break
+        M = EV.gen_event_variants(vrnd)
+        seen_variants.update(M["variants"])
+        use = cfgs if ctx.tier == "thorough" else [cfgs[i % 2], cfgs[2 + i % 3]]
+        for cfg in use:
+            try:
+                drive_modules(ctx, M, cfg, drv, stats)
+                stats["contract_configs"] += 1
+                if "real_part" in M and M not in tied:
+                    tied.append(M)
+            except Fail as f:
+                found = True
+                if "real_part" in M and M not in tied:
+                    tied.append(M)
+                if f.name not in reported and len(reported) < 3:
+                    reported.add(f.name)
+                    f.detail["replay"] = ("write `modules` next to `src` (gen.vy), compile gen.vy with -f abi,bytecode (config as "
+                                          "given), deploy, send the call, compare the log / revert data with the ABI json")
+                    ctx.violation("failing-input", f.name, f.detail, key="C19:" + f.name[:60])
+                break
+    ctx.extra["event_variant_kinds"] = dict(seen_variants)
+    # tie of coq/C19/EventSet.v (which declarations the ABI lists, in which order): model vs the real ABI json of every
+    # variant program.  A difference without a failing input from the driving above is a broken correspondence.
+    if (coqrun.COQ / "C19" / "EventSet.vo").exists() and tied:
+        outs = coqrun.eval_cases("From Verif Require Import C19.EventSet.\nOpen Scope string_scope.\n",
+                                 [EV.coq_abi_part(M["model"]) for M in tied], "c19evset")
+        nbad = 0
+        for o, M in zip(outs, tied):
+            m = o.strip()
+            m = m[1:-1] if m.startswith('"') and m.endswith('"') else m
+            if re.sub(r"\s+", "", m) != re.sub(r"\s+", "", M["real_part"]):
+                nbad += 1
+                if nbad == 1 and not found:
+                    ctx.violation("correspondence-broken", "EventSet.v (declarations listed by the ABI) differs from the real ABI json "
+                                  "-- theorems abi_lists_every_emitted_declaration / abi_lists_only_declared_or_emitted",
+                                  {"model": m, "real": M["real_part"], "src": M["src"], "modules": M["files"]})
+        ctx.corr["event_set_model_cases"] = len(tied)
+        ctx.corr["event_set_model_mismatches"] = nbad
+        n_model += len(tied)
+        ctx.samples.append({"event_set_model_vs_real": tied[0]["real_part"][:300]})
     if not b["ok"] and not found:
         ctx.violation("theorem-broken", f"{b.get('failed_lemma')} in {b['file']}",
                       {"theorem": b.get("failed_lemma"), "file": b["file"], "coq_output": b["out"][-1500:]})
